@@ -9,8 +9,9 @@
      parse_term, parse_factor, parse_cast, parse_type (scalar and named types, tuple types, array
      types with a literal or a named size), parse_if_or_match (`if` / `else if` / `else` AND
      `match` with parse_match_clause), parse_pattern (all forms), parse_unary, parse_primary
-     (with its postfix loop `[..]` `.0` `.field`), the arms of parse_literal that parse_primary
-     reaches (true / false, numbers, `(e)`, `()`, tuples), parse_stmt (`let`, `let mut`, `for`,
+     (with its postfix loop `[..]` `.0` `.field`), the arms of parse_literal(token, false) (true /
+     false, numbers, ranges `a..b`, `(e)`, `()`, tuples, array literals `[a, b]`, `[e; n]`, `[e; N]`,
+     struct literals `S { a: e, b }`, enum literals `E::V`, `E::V(e, ..)`), parse_stmt (`let`, `let mut`, `for`,
      assignments `x.acc = e` and the compound assignments `x.acc op= e` with their DESUGARING
      into `x.acc = x.acc op e`, expression statements with the `;` rules), parse_stmts (the
      struct-literal flag), parse_stmts_of_block (the loop), parse_block_as_expr.
@@ -30,10 +31,10 @@
    - the body of a `for` loop (`expect({); parse_stmts(); expect(})`) is obtained by calling
      parse_expr one level down on the `{`, which performs exactly these three steps and returns
      the statements in a Block: this keeps the recursion through the single parameter [pe];
-   - OUTSIDE THE MODEL ([POutside], with the construct that was met): struct literals (but the
-     TEST that decides whether `ident {` is a struct literal, which reads the flag, IS modelled),
-     enum literals `A::B`, array literals `[..]`, ranges `a..b` as expressions, array types whose
-     size is `const { .. }`.
+   - a range whose two suffixes differ (`1u8..2u16`): the Rust code pushes an error and goes on
+     with the first suffix; the final result is `Err`, here [PErr] at once;
+   - OUTSIDE THE MODEL ([POutside OType]): array types whose size is `const { .. }`.  (The other
+     constructors of [outside] are no longer produced.)
    Recursion: explicit fuel, one unit per nesting level of parse_expr and per loop iteration;
    [PNoFuel] is never a Rust behaviour. *)
 From GV Require Import Base.Util Front.Scan.
@@ -88,6 +89,12 @@ Inductive uexpr :=
 | UCast (ty : utype) (e : uexpr)
 | UBlock (b : list ustmt)
 | UMatch (e : uexpr) (arms : list (upattern * uexpr))
+| UArrayLiteral (es : list uexpr)                         (* never empty *)
+| UArrayRepeat (e : uexpr) (size : N)                     (* ArrayRepeatLiteral *)
+| UArrayRepeatConst (e : uexpr) (size : list N)           (* ArrayRepeatLiteralConst *)
+| URange (lo hi : N) (t : unsigned_num_type)
+| UStructLiteral (name : list N) (fields : list (list N * uexpr))      (* fields sorted by name *)
+| UEnumLiteral (e v : list N) (args : option (list uexpr))            (* None: VariantExprEnum::Unit *)
 with ustmt :=
 | SLet (p : upattern) (ty : option utype) (e : uexpr)
 | SLetMut (x : list N) (ty : option utype) (e : uexpr)
@@ -478,17 +485,67 @@ Section WithExpr.
         end
     end.
 
-  (* the arms of fn parse_literal(token, false) that parse_primary reaches *)
+  (* one field of a struct literal: `name` (the variable of that name) or `name: e` *)
+  Definition struct_field (s : pstate) : pres (list N * uexpr) :=
+    expect_identifier s (fun name s1 =>
+      if peek TComma s1 || peek TRightBrace s1 then POk (name, UIdentifier name) s1
+      else expect TColon s1 (fun s2 => bindp (pe s2) (fun value s3 => POk (name, value) s3))).
+
+  (* `(Unspecified, ty) | (ty, Unspecified) => ty, (ty1, ty2) if ty1 == ty2 => ty1, _ => error` *)
+  Definition range_type (t1 t2 : unsigned_num_type) : option unsigned_num_type :=
+    match t1, t2 with
+    | UnspecifiedU, ty => Some ty
+    | ty, UnspecifiedU => Some ty
+    | _, _ => if unsigned_num_type_eq_dec t1 t2 then Some t1 else None
+    end.
+
+  (* fn parse_literal(token, false) *)
   Definition parse_literal (n : nat) (t : token_enum) (s : pstate) : pres uexpr :=
     match t with
     | TIdentifier id =>
         if list_eqb id s_true then POk UTrue s
         else if list_eqb id s_false then POk UFalse s
-        else if peek TDoubleColon s then POutside OEnumLiteral
-        else if peek TLeftBrace s && sla s then POutside OStructLiteral
-        else PErr
+        else
+          match next_matches TDoubleColon s with
+          | Some s1 =>
+              (* E::V  /  E::V(e, ..) *)
+              expect_identifier s1 (fun variant s2 =>
+                match next_matches TLeftParen s2 with
+                | Some s3 =>
+                    bindp (if negb (peek TRightParen s3)
+                           then bindp (pe s3) (fun a s4 => comma_loop TRightParen n [a] s4)
+                           else POk [] s3)
+                      (fun fields s4 => expect TRightParen s4 (fun s5 =>
+                         POk (UEnumLiteral id variant (Some fields)) s5))
+                | None => POk (UEnumLiteral id variant None) s2
+                end)
+          | None =>
+              (* `next_matches(LeftBrace).is_some() && struct_literals_allowed` *)
+              match next_matches TLeftBrace s with
+              | Some s1 =>
+                  if sla s then
+                    bindp (if negb (peek TRightBrace s1)
+                           then bindp (struct_field s1) (fun f s2 => sep_loop struct_field TRightBrace n [f] s2)
+                           else POk [] s1)
+                      (fun fields s2 => expect TRightBrace s2 (fun s3 =>
+                         POk (UStructLiteral id (sort_fields fields)) s3))
+                  else PErr
+              | None => PErr
+              end
+          end
     | TUnsignedNum v ty =>
-        if peek TDoubleDot s then POutside ORange else POk (UNumUnsigned v ty) s
+        match next_matches TDoubleDot s with
+        | Some s1 =>
+            match toks s1 with
+            | Token (TUnsignedNum range_end ty_end) _ :: r =>
+                match range_type ty ty_end with
+                | Some num_ty => POk (URange v range_end num_ty) (PState r (sla s1))
+                | None => PErr          (* InvalidRangeTypes: an error is pushed *)
+                end
+            | _ => PErr
+            end
+        | None => POk (UNumUnsigned v ty) s
+        end
     | TSignedNum v ty => POk (UNumSigned v ty) s
     | TLeftParen =>
         if negb (peek TRightParen s) then
@@ -498,7 +555,21 @@ Section WithExpr.
                 expect TRightParen s2 (fun s3 => POk (UTupleLiteral fields) s3))
             else expect TRightParen s1 (fun s2 => POk e s2))
         else expect TRightParen s (fun s1 => POk (UTupleLiteral []) s1)
-    | TLeftBracket => POutside OArrayLiteral
+    | TLeftBracket =>
+        bindp (pe s) (fun elem s1 =>
+          if peek TSemicolon s1 then
+            expect TSemicolon s1 (fun s2 =>
+              match toks s2 with
+              | Token (TUnsignedNum k UnspecifiedU) _ :: r
+              | Token (TUnsignedNum k Usize) _ :: r =>
+                  expect TRightBracket (PState r (sla s2)) (fun s3 => POk (UArrayRepeat elem k) s3)
+              | Token (TIdentifier c) _ :: r =>
+                  expect TRightBracket (PState r (sla s2)) (fun s3 => POk (UArrayRepeatConst elem c) s3)
+              | _ => PErr
+              end)
+          else
+            bindp (comma_loop TRightBracket n [elem] s1) (fun elems s2 =>
+              expect TRightBracket s2 (fun s3 => POk (UArrayLiteral elems) s3)))
     | _ => PErr
     end.
 
